@@ -66,8 +66,13 @@ CLAIMED["C09"] = dict(cat="other", sec="DESIGN 4/C09",
     note="A3 torch model (matmul, expand, reshape), A4 autograd: sum_to_size reduction of the returned gradients and double-backward through differentiable ops (second derivatives of the fast path are inherited from it, NOT proved), A2, A8, A9. Bounded: output dimension and feature counts schematic.",
     tech="contract-based deductive verification with abstract trunk/branch operands and symbolic sums, z3")
 
+CLAIMED["C11"] = dict(cat="proof", sec="DESIGN 4/C11, 10.2",
+    text="PARTIAL: only the per-call clauses. Latin hypercube (_create_lhs_in_bounding_box): for every outcome of the random generator, on every axis row r lies in the half-open slab given by the drawn permutation and every slab is hit by exactly one row (bijection from the randperm contract), points stay in the box. Interval.sample_random_uniform is the affine image lo + (hi-lo)*u of the uniform variate (inverse-CDF condition). Uniformity after rejection, the union mixture, dependent products, the Gaussian law and grid evenness are statements about push-forward measures and are NOT decided.",
+    note="A1, A3 (torch.rand in [0,1), randperm is a permutation), A9. The distribution laws themselves are not applicable to this technique; only necessary per-call conditions are proved.",
+    tech="contract-based deductive verification of per-call postconditions (all outcomes of the random generator), z3")
+
 NA = {
- "C11": "distribution laws (uniformity, Gaussian law, grid evenness) are statements about the push-forward of a probability measure over all outcomes of the random generator; a contract over one call's return value cannot express them, and the per-call necessary conditions (constant Jacobian of the closed-form samplers, one point per LHS slab) were not brought under contract in this session (DESIGN 4/C11, 10.2)",
+ "C11_unused": "distribution laws (uniformity, Gaussian law, grid evenness) are statements about the push-forward of a probability measure over all outcomes of the random generator; a contract over one call's return value cannot express them, and the per-call necessary conditions (constant Jacobian of the closed-form samplers, one point per LHS slab) were not brought under contract in this session (DESIGN 4/C11, 10.2)",
  "C19": "restore fidelity is a property of Lightning's checkpoint / torch.save machinery, the file system and process restarts; no contract on a repo function expresses it (DESIGN 4/C19)",
  "C20": "shift-equivariance / resolution consistency are DFT theorems about torch.fft in complex floating point; a contract on _FourierLayer.forward could only restate them as axioms of an external library (DESIGN 4/C20)",
 }
